@@ -207,7 +207,7 @@ impl Request {
                     line_parts
                         .next()
                         .to_error(RequestError::Request)?
-                        .trim_start(),
+                        .trim_start_matches(|c| c == ' ' || c == '\t'),
                 );
             }
         }
@@ -315,7 +315,7 @@ impl Request {
                     line_parts
                         .next()
                         .to_error(RequestError::Request)?
-                        .trim_start(),
+                        .trim_start_matches(|c| c == ' ' || c == '\t'),
                 );
             }
         }
